@@ -399,6 +399,9 @@ def run(chk, tier):
     ns = bound_sites(chk, db, table, tier)
     if ns < 10:
         chk.analysis_broken("BOUND: only %d access sites analysed (floor 10)" % ns)
+    # ---- SHIFT: a shift count that can reach the promoted width of its left operand is undefined behaviour
+    from ..rules import shift as _SH
+    _SH.check(chk, D.load("checks"), ["_bit/", "_bitset/", "_random/", "_memory/", "_numeric/", "_math/", "_cstdlib/", "_strings/"], floor=30)
     # ---- thorough: object-level cross-check
     if tier == "thorough":
         objscan(chk)
